@@ -348,6 +348,8 @@ def make_factory(cfg):
                         ctx.second.saver.join()
                 if kind == "stop":
                     ctx.tw.stop_all()
+                    # stop_all() is a synchronisation point: when it returns, every worker it stopped has ended
+                    ctx.alive_after_sync = sorted(type(x).__name__ for x in [ctx.tw] + obs if _unfinished(x))
                     if ctx.saver is not None:
                         ctx.saver.join()
                 elif cfg.get("main_waits") == "tokenizer":
@@ -357,6 +359,10 @@ def make_factory(cfg):
                     return
                 else:
                     ctx.tw.join()
+                    # the tokenizer closes its reader before it ends, and closing a stream saver waits for its writer:
+                    # once the tokenizer has been joined the saved stream is complete
+                    if ctx.saver is not None and _unfinished(ctx.saver):
+                        ctx.alive_after_sync = ["StreamSaverWorker (after the tokenizer was joined)"]
                     for o in obs:
                         o.join()
                     if ctx.saver is not None:
@@ -368,6 +374,11 @@ def make_factory(cfg):
         return main, ctx
 
     return make
+
+
+def _unfinished(worker):
+    t = getattr(worker, "_ctl_t", None)
+    return t is not None and t.started and not t.finished
 
 
 def _inject_write_fault(saver, k):
@@ -426,6 +437,12 @@ def make_cli(ctx, cfg, data, sw, ch):
     for a in cfg["argv"]:
         argv.append(a.replace("<WD>", ctx.dir + "/"))
     ctx.saver_file = os.path.join(ctx.dir, "stream.raw" if any("stream.raw" in a for a in cfg["argv"]) else "stream.wav")
+    if any(a == "-C" for a in cfg["argv"]):
+        import tempfile
+
+        ctx.cmdlogs = [os.path.join(ctx.dir, "cmd.log")]
+        ctx.old_tempdir = getattr(ctx, "old_tempdir", tempfile.tempdir)
+        tempfile.tempdir = ctx.dir
     for stale in cfg.get("preexisting", ()):
         with open(os.path.join(ctx.dir, "ev_%d.wav" % stale), "wb") as fp:
             fp.write(b"stale file of an earlier run")
@@ -545,6 +562,8 @@ def check(ex, ctx):
     if ex.outcome == "exit-kills-daemon-threads":
         return "the program's last non-daemon thread ended while %s still had work: as daemon threads they are killed at interpreter exit" % (
             sorted(t.name for t in ex.th if t.started and not t.finished),)
+    if getattr(ctx, "alive_after_sync", None) and not cfg.get("tolerate_crash"):
+        return "still running after the call that is supposed to wait for them returned: %s" % ", ".join(ctx.alive_after_sync)
     live = getattr(ctx, "live_stdin", None)
     if ex.outcome == "deadlock" and live is not None and live.blocked_request == max(1, round(sr * BLOCK)) * sw * ch:
         # the producer paused while the tokenizer was waiting for its next window: with a live input that wait is not
@@ -661,6 +680,15 @@ def check(ex, ctx):
             return "unexpected region files %r" % sorted(extra)
     if ctx.saver is not None:
         path = ctx.saver_file
+        if cfg.get("saver_name") and path.endswith(".raw") and cfg["kind"] == "run":
+            # a format that needs no external encoder: after export_audio() and the worker's release the raw file is there
+            try:
+                ctx.saver.export_audio()
+                type(ctx.saver).__del__(ctx.saver)
+            except Exception as exc:
+                return "export_audio() / release raised %r" % (exc,)
+            if not os.path.exists(path):
+                return "after export_audio() and the release of the worker the file %s does not exist" % os.path.basename(path)
         if cfg.get("saver_name") and not path.endswith((".wav", ".raw")):
             # a format that needs an external encoder: where none can be run, export_audio() warns that the audio was
             # kept as <name>.wav - that file is then the worker's product, and it is still there after the worker is gone
@@ -900,6 +928,10 @@ def plan(prop, tier):
         # the command observer (-C), with few spare file descriptors, on 150 detections; and under all interleavings on a short stream
         tasks.append((dict(kind="run", pattern="A" * 150, observers=["cmd", "rec"], split="s2", fd_headroom=60), 10 ** 6, 0, "directed", None, None))
         tasks.append((dict(kind="run", pattern="AaA", observers=["cmd", "rec"], split="s0"), 0, 0, "sync", None, None))
+        # ... and assembled by the command line program: -C alone, -C with a debug file, -C with -D
+        for extra in ([], ["--debug-file", "<WD>debug.log"], ["-D"]):
+            tasks.append((dict(kind="cli", pattern="AaA", observers=[], split="s0", argv=["-C", "wc -c < {file} >> <WD>cmd.log"] + extra),
+                          0, 0, "sync", None, None))
         # an observer that died on its first message must not hold up the others, however many detections follow
         tasks.append((dict(kind="run", pattern="A" * 300, observers=["crash", "rec", "print"], split="s2"), 10 ** 6, 0, "directed", None, None))
         tasks.append((dict(kind="run", pattern="AAAA", observers=["crash", "rec"], split="s2"), 1, 0, "sync", None, None))
@@ -997,6 +1029,11 @@ def plan(prop, tier):
         tasks.append((dict(base, pattern="AAaA", observers=["regsave"], split="s2", preexisting=[1, 3]), 0, 0, "sync", None, None))
         for p in ("AaA", "AAAA"):
             tasks.append((dict(base, pattern=p, observers=["join", "regsave"], saver=True, cache=0.1, late_start=True), 0, 0, "sync", None, None))
+        tasks.append((dict(base, pattern="AaA", observers=[], saver=True, cache=0.1, saver_name="stream.raw"), 0, 0, "sync", None, None))
+        # stereo events joined with silence (two detections at least, so that there is a gap to fill)
+        for sil in (0.1, 0.25):
+            tasks.append((dict(base, pattern="AaaA", observers=["join"], sw=2, ch=2, silence=sil), 0, 0, "sync", None, None))
+            tasks.append((dict(base, pattern="AaAaA", observers=["join"], sw=1, ch=3, silence=sil), 0, 0, "sync", None, None))
         # an output format that needs an external encoder (none can be run here): the audio is kept in the fallback wav
         tasks.append((dict(base, pattern="AaA", observers=[], saver=True, cache=0.1, saver_name="stream.ogg"), 0, 0, "sync", None, None))
         # the command line program saving a stream in which nothing is detected (wav and raw)
